@@ -834,6 +834,9 @@ func TestC24(t *testing.T) {
 			{{req: 65536}, {blocking: true, req: 1, ans: 1}, {blocking: true, req: 65536}},
 			{{blocking: true, req: 3, ans: 4}, {blocking: true, req: 3, ans: -1}},
 		}
+		if !thorough {
+			handful = handful[:4]
+		}
 		for _, h := range handful {
 			s := pairScenario("sched", h)
 			s.MinB, s.MaxB, s.Budget = 1, 1, 60*time.Second
